@@ -514,7 +514,9 @@ mod if_alloc {
         // Safety: Channel futures can be sent between threads as long as the underlying
         // channel is thread-safe (Sync), which allows to poll/register/unregister from
         // a different thread.
-        unsafe impl<MutexType: Sync, T: Clone + Send> Send
+        // The future might be the last owner of the channel, which is destroyed on the
+        // receiving thread in this case. Therefore the mutex also needs to be Send.
+        unsafe impl<MutexType: Send + Sync, T: Clone + Send> Send
             for StateReceiveFuture<MutexType, T>
         {
         }
